@@ -142,6 +142,17 @@ def run():
     add("all3", 3, all3, ["sync"], limit=1500 if q else None)
     add("all3b", 3, all3, ["burst"], limit=500 if q else None)
     add("all3q", 3, all3, ["burst"], limit=300 if q else None, queued=True)
+    # the broker mixes up request ids: one caller's id is answered with the response kind of another caller's request; that call
+    # fails with an error, nobody panics, the others get their own responses
+    for k, perm in enumerate([(1, 2, 3), (2, 3, 1), (3, 1, 2)]):
+        for pos in range(4):
+            steps = [{"a": "start", "n": t} for t in (1, 2, 3)]
+            order = [{"a": "ans", "n": t} for t in perm[1:]]
+            order.insert(min(pos, len(order)), {"a": "cross", "n": perm[0]})
+            if pos == 3:
+                order.append({"a": "ans", "n": perm[0]})      # the right response arrives afterwards: ignored
+            for m in ("sync", "burst"):
+                scs.append(scenario("cross3", k * 4 + pos, 3, steps + order, m, rnd))
     # the broker answers while other callers are still starting (no barrier)
     add("nobar3", 3, gen(ctx, "nobar3", 3, cancel=1, barrier=False), ["sync", "burst"])
     # the pong of the keep-alive ping is one of the reordered responses
